@@ -233,6 +233,20 @@ impl<'a> Gen<'a> {
         }
     }
 
+    fn gen_arith(&mut self, depth: usize, nums: &[String]) -> Arith {
+        if depth == 0 || self.r.chance(1, 4) {
+            return if self.r.chance(2, 3) { Arith::Var(self.r.pick(nums).clone()) } else { Arith::Num(self.r.below(self.n_num + 2) as i64) };
+        }
+        let l = Box::new(self.gen_arith(depth - 1, nums));
+        let r = Box::new(self.gen_arith(depth - 1, nums));
+        match self.r.below(7) {
+            0 | 1 => Arith::Add(l, r),
+            2 | 3 => Arith::Sub(l, r),
+            4 | 5 => Arith::Mul(l, r),
+            _ => Arith::Div(l, r),
+        }
+    }
+
     fn gen_atom(&mut self, sc: &Scope) -> Option<Expr> {
         let vars: Vec<(&String, &VInfo)> = sc.iter().collect();
         if vars.is_empty() {
@@ -245,6 +259,12 @@ impl<'a> Gen<'a> {
         if !nums.is_empty() && choice < 4 {
             let nv = self.r.pick(&nums).clone();
             let op = *self.r.pick(&["<", "<=", ">", ">=", "=", "!="]);
+            if self.r.chance(1, 6) {
+                // compound arithmetic on both sides (precedence, associativity, division)
+                let lhs = self.gen_arith(2, &nums);
+                let rhs = self.gen_arith(1, &nums);
+                return Some(Expr::ArithCmp(lhs, op, rhs));
+            }
             if self.r.chance(1, 3) {
                 let k = self.r.below(3) as i64 + 1;
                 let lhs = match self.r.below(3) {
